@@ -202,6 +202,10 @@ func RunLife(sc LifeScenario) (evs []Ev, inconclusive string) {
 					s.Emit(map[string]any{"id": 900000 + int(n), "v": 1, "g": "r", "ts": int64(1000)})
 				case 1:
 					_ = s.GetStats()
+				case 2:
+					if n < 24 { // a sink that registers a further sink (bounded: every sink sees every later result)
+						s.AddSink(func([]map[string]any) {})
+					}
 				}
 			case "park":
 				select {
